@@ -184,6 +184,73 @@ Theorem C06_LA_dcrgoal_sound :
 Proof. exact dcrg_sound. Qed.
 Print Assumptions C06_LA_dcrgoal_sound.
 
+(* ---------------------------------------------------------------- third round: more compilers as sound stages *)
+Require Import UPV.Compilers.LayerA_Inv UPV.Compilers.LayerA_Neg.
+
+Theorem C06_LA_pipe_ncr_stage_sound :
+  forall (nmap : list (N * N)) (rw smp : expr -> expr) (P : problem),
+    nmap_ok nmap P = true -> problem_clean nmap P = true -> ncr_safe nmap P = true -> rw_ok nmap rw P -> smp_exact smp ->
+    stage_sound (ncr_stage nmap rw smp P).
+Proof. exact ncr_stage_sound. Qed.
+Print Assumptions C06_LA_pipe_ncr_stage_sound.
+
+Theorem C06_LA_pipe_btr_stage_sound :
+  forall (smp : expr -> expr), smp_holds smp -> forall P : problem, unique_ids P -> stage_sound (btr_stage smp P).
+Proof. exact btr_stage_sound. Qed.
+Print Assumptions C06_LA_pipe_btr_stage_sound.
+
+Theorem C06_LA_pipe_sir_stage_sound :
+  forall (smp : expr -> expr), smp_holds smp ->
+  forall P : problem, unique_ids P -> Forall (closed_cond P) (p_invs P) -> stage_sound (sir_stage smp P).
+Proof. exact sir_stage_sound. Qed.
+Print Assumptions C06_LA_pipe_sir_stage_sound.
+
+(* a step changes only fluents that some effect of the action targets (used for stage_noop of stages whose relation
+   leaves some fluent of the source state open) *)
+Theorem C06_LA_pipe_step_untouched :
+  forall (P : problem) (s : state) (a : action) (args : list value) (t : state) (g : N),
+    spec_step false P s a args = Some t -> (forall e, In e (a_effs a) -> e_fl e <> g) -> forall x, t g x = s g x.
+Proof. exact step_untouched. Qed.
+Print Assumptions C06_LA_pipe_step_untouched.
+
+(* CLOSED THEOREM for CompilersPipeline([QuantifiersRemover(), NegativeConditionsRemover()]): hypotheses of
+   C06_LA_quant_sound on P, of C06_LA_ncr_sound on the intermediate problem; the compiled initial state is related to
+   the original one by [neg_rel]; the map back is the identity on plans (both stages keep names) *)
+Theorem C06_LA_pipe_quant_ncr_sound :
+  forall (smp : expr -> expr), smp_exact smp ->
+  forall (P : problem) (tau : N -> N), unique_ids P -> problem_wf P tau = true ->
+  forall (nmap : list (N * N)) (rw smp2 : expr -> expr),
+    nmap_ok nmap (quant_compile smp P) = true -> problem_clean nmap (quant_compile smp P) = true ->
+    ncr_safe nmap (quant_compile smp P) = true -> rw_ok nmap rw (quant_compile smp P) -> smp_exact smp2 ->
+  forall (s0 s0' : state) (pi' : pplan), bool_state P s0 -> neg_rel nmap s0 s0' -> plan_targets_total P pi' ->
+    valid_plan false (neg_compile nmap rw smp2 (quant_compile smp P)) s0' pi' = true ->
+    valid_plan false P s0 (pback (pipeline_back (qn_stages smp nmap rw smp2 P)) pi') = true.
+Proof. exact pipe_quant_ncr_sound. Qed.
+Print Assumptions C06_LA_pipe_quant_ncr_sound.
+
+Theorem C06_LA_pipe_quant_ncr_back :
+  forall (smp : expr -> expr) (P : problem) (nmap : list (N * N)) (rw smp2 : expr -> expr) (pi' : pplan),
+    pback (pipeline_back (qn_stages smp nmap rw smp2 P)) pi' = pi'.
+Proof. exact qn_pback. Qed.
+Print Assumptions C06_LA_pipe_quant_ncr_back.
+
+(* CLOSED THEOREM for CompilersPipeline([BoundedTypesRemover(), ConditionalEffectsRemover()]) *)
+Theorem C06_LA_pipe_btr_cer_sound :
+  forall (smp : expr -> expr), smp_holds smp ->
+  forall P : problem, unique_ids P -> unique_ids (btr_compile smp P) ->
+  forall (simp_pre : list expr -> option (list expr)), simp_pre_ok simp_pre ->
+  forall (nm : N -> nat -> N), unique_ids (cer_compile simp_pre nm (btr_compile smp P)) ->
+  forall G : state -> Prop,
+    (forall s aid a args t, G s -> lookup_action (btr_compile smp P) aid = Some a ->
+       spec_step false (btr_compile smp P) s a args = Some t -> G t) ->
+    (forall s args i a, G s -> In (i, a) (p_actions (btr_compile smp P)) ->
+       Forall (cond_ok (btr_compile smp P) s a args) (cond_effs (a_effs a))) ->
+  forall (s0 : state) (pi' : pplan), G s0 ->
+    valid_plan false (cer_compile simp_pre nm (btr_compile smp P)) s0 pi' = true ->
+    valid_plan false P s0 (pback (pipeline_back (bc_stages smp simp_pre nm G P)) pi') = true.
+Proof. exact pipe_btr_cer_sound. Qed.
+Print Assumptions C06_LA_pipe_btr_cer_sound.
+
 (* ---------------------------------------------------------------- non-vacuity *)
 Module LP.
   Definition idsmp (e : expr) : expr := e.
